@@ -822,7 +822,9 @@ def judge_map(st: State, ev):
         ctx.violation('transmission_value',
                       f'transmission {float(Tj[i, j])!r}, recomputed from the observed quadrature and '
                       f'oracle paths {float(exp[i, j])!r}', case, **keys)
-    if not (np.all(T > 0) and np.all(T <= 1 + 1e-6)):
+    if float(np.min(exp)) < 1e-200:
+        ctx.count('out_of_domain:transmission_underflow')
+    elif not (np.all(T > 0) and np.all(T <= 1 + 1e-6)):
         case.update(min=repr(float(np.min(T))), max=repr(float(np.max(T))))
         ctx.violation('transmission_range',
                       f'transmission outside (0, 1]: min {float(np.min(T))!r} max {float(np.max(T))!r}',
@@ -1147,8 +1149,10 @@ def transmission_case(rng, st, mods, i, tier):
     ss_si = 10.0 ** rng.uniform(-1, 1.5) * 1e-28 * (0.0 if rng.random() < 0.15 else 1.0)
     sa_si = 10.0 ** rng.uniform(-1, 2) * 1e-28 * (0.0 if (rng.random() < 0.25 and ss_si > 0) else 1.0)
     tau = 10.0 ** rng.uniform(-3, 0.6)
-    lam_mid = float(lam_A[len(lam_A) // 2]) * 1e-10
-    n_si = tau / ((ss_si + sa_si * lam_mid / 1.7982e-10) * size_m)
+    # domain: the optical depth tau = mu (r + h) is set at the longest wavelength (largest mu), so
+    # that exp(-mu L) stays far from underflow for every wavelength and for the denser copy
+    lam_top = float(lam_A[-1]) * 1e-10
+    n_si = tau / ((ss_si + sa_si * lam_top / 1.7982e-10) * size_m)
     d_u = DENS_UNITS[int(rng.integers(0, len(DENS_UNITS)))]
     fd = float(si.factor(sc.Unit(d_u)))
     sp = ScatteringParams('Fake', absorption_cross_section=sc.scalar(sa_si / fx, unit=xs_u),
